@@ -201,12 +201,12 @@ def rand_model_kw(r):
         if ht != "centroid" and r.random() < 0.5:
             conf["part_names"] = ["a", "b", "c"]
         if ht in ("centroid", "centered_instance") and r.random() < 0.5:
-            conf["anchor_part"] = 1
+            conf["anchor_part"] = int(r.choice([0, 1, 2]))  # 0 (first node) is a value, not "unset"
         layers = {"confmaps": conf}
         if ht == "bottomup":
             layers["pafs"] = {"sigma": 7.5, "output_stride": int(r.choice([4, 8])), "edges": [["a", "b"], ["b", "c"]]}
-            conf["loss_weight"] = 1.0
-            layers["pafs"]["loss_weight"] = 0.5
+            conf["loss_weight"] = float(r.choice([1.0, 0.0, 2.0]))
+            layers["pafs"]["loss_weight"] = float(r.choice([0.5, 0.0]))
         kw["head_configs"] = {ht: layers}
     fam = kw.get("backbone_config", "unet")
     fam = fam if isinstance(fam, str) else next(iter(fam))
@@ -257,17 +257,6 @@ def gen_cases(ctx):
                 {"step_lr": None, "reduce_lr_on_plateau": {"cooldown": 2}}]:
         if mine():
             yield {"kind": "builder", "data": {}, "model": dict(base_model), "trainer": {"lr_scheduler": sch}}
-    # random full combinations
-    for i in range(N_RANDOM[ctx.tier]):
-        if not mine():
-            continue
-        rr = ctx.rng(20, 1, i)
-        kw = {"data": {}, "model": rand_model_kw(rr), "trainer": {}}
-        for g, tbl in (("data", DATA_PATHS), ("trainer", TRAINER_PATHS)):
-            for a in tbl:
-                if rr.random() < 0.35:
-                    kw[g][a] = SENTINELS[a][int(rr.integers(0, len(SENTINELS[a])))]
-        yield dict(kind="builder", **kw)
     # augmentation lists, exhaustive
     for names, which in ((GEOM, "geometry_aug"), (INTENS, "intensity_aug")):
         for L in range(1, len(names) + 1):
@@ -296,16 +285,27 @@ def gen_cases(ctx):
     for case in invalid_cases():
         if mine():
             yield case
+    # random full combinations (last: the finite families above always run before the time budget can end the loop)
+    for i in range(N_RANDOM[ctx.tier]):
+        if not mine():
+            continue
+        rr = ctx.rng(20, 1, i)
+        kw = {"data": {}, "model": rand_model_kw(rr), "trainer": {}}
+        for g, tbl in (("data", DATA_PATHS), ("trainer", TRAINER_PATHS)):
+            for a in tbl:
+                if rr.random() < 0.35:
+                    kw[g][a] = SENTINELS[a][int(rr.integers(0, len(SENTINELS[a])))]
+        yield dict(kind="builder", **kw)
 
 
 def invalid_cases():
     for cls, field in [("IntensityConfig", "uniform_noise_p"), ("IntensityConfig", "gaussian_noise_p"), ("IntensityConfig", "contrast_p"), ("IntensityConfig", "brightness_p"),
                        ("GeometricConfig", "affine_p"), ("GeometricConfig", "erase_p"), ("GeometricConfig", "mixup_p")]:
-        for v in (-0.1, 1.5, -1e-9, 1.0000001, 100):
+        for v in (-0.1, 1.5, -1e-9, 1.0000001, 100, float("nan"), float("inf"), float("-inf")):  # NaN is not a probability either
             yield {"kind": "invalid", "target": cls, "field": field, "value": v, "valid": False}
         for v in (0.0, 1.0, 0.5):
             yield {"kind": "invalid", "target": cls, "field": field, "value": v, "valid": True}
-    for v, ok in ((-0.5, False), (-1.0, False), ("big", False), (1, False), ([0.5, -1.0], False), (0.5, True), (2.0, True), ([0.5, 0.25], True)):
+    for v, ok in ((-0.5, False), (-1.0, False), (float("nan"), False), ("big", False), (1, False), ([0.5, -1.0], False), (0.5, True), (2.0, True), ([0.5, 0.25], True)):
         yield {"kind": "invalid", "target": "PreprocessingConfig", "field": "scale", "value": v, "valid": ok}
     for v, ok in (("huge", False), ("large", False), ("", False), ("tiny", True), ("small", True), ("base", True)):
         yield {"kind": "invalid", "target": "SwinTConfig", "field": "model_type", "value": v, "valid": ok}
